@@ -177,10 +177,13 @@ type c11JSONJWE struct {
 	AAD         string             `json:"aad,omitempty"`
 	Ciphertext  string             `json:"ciphertext"`
 	IV          string             `json:"iv,omitempty"`
-	Protected   string             `json:"protected"`
+	Protected   string             `json:"protected,omitempty"`
 	Recipients  []c11JSONRecipient `json:"recipients"`
 	Tag         string             `json:"tag,omitempty"`
 	Unprotected map[string]any     `json:"unprotected,omitempty"`
+
+	Header       map[string]any `json:"header,omitempty"`
+	EncryptedKey string         `json:"encrypted_key,omitempty"`
 }
 
 func c11MapOrNull(m map[string]any) vf.Wire {
@@ -267,13 +270,19 @@ func init() {
 		if err := dec.Decode(&raw); err != nil {
 			return vf.None()
 		}
-		rs := make([]vf.Wire, 0, len(raw.Recipients))
-		for _, r := range raw.Recipients {
-			rs = append(rs, vf.Obj(vf.KV{K: "encrypted_key", V: vf.Str(r.EncryptedKey)}, vf.KV{K: "header", V: c11MapOrNull(r.Header)}))
+		rcpts := vf.Null() // a nil slice: member absent or null (the flattened syntax)
+		if raw.Recipients != nil {
+			rs := make([]vf.Wire, 0, len(raw.Recipients))
+			for _, r := range raw.Recipients {
+				rs = append(rs, vf.Obj(vf.KV{K: "encrypted_key", V: vf.Str(r.EncryptedKey)}, vf.KV{K: "header", V: c11MapOrNull(r.Header)}))
+			}
+			rcpts = vf.Wire{Kind: vf.KArr, Arr: rs}
 		}
 		return vf.Obj(
-			vf.KV{K: "ciphertext", V: vf.Str(raw.Ciphertext)}, vf.KV{K: "iv", V: vf.Str(raw.IV)},
-			vf.KV{K: "protected", V: vf.Str(raw.Protected)}, vf.KV{K: "recipients", V: vf.Wire{Kind: vf.KArr, Arr: rs}},
+			vf.KV{K: "aad", V: vf.Str(raw.AAD)},
+			vf.KV{K: "ciphertext", V: vf.Str(raw.Ciphertext)}, vf.KV{K: "encrypted_key", V: vf.Str(raw.EncryptedKey)},
+			vf.KV{K: "header", V: c11MapOrNull(raw.Header)}, vf.KV{K: "iv", V: vf.Str(raw.IV)},
+			vf.KV{K: "protected", V: vf.Str(raw.Protected)}, vf.KV{K: "recipients", V: rcpts},
 			vf.KV{K: "tag", V: vf.Str(raw.Tag)}, vf.KV{K: "unprotected", V: c11MapOrNull(raw.Unprotected)})
 	})
 }
@@ -439,6 +448,12 @@ func c11Classify(err error) string {
 	case has("both signatures and signature"), has("neither signatures nor signature"), has("signature is missing"), has("invalid format"),
 		has("invalid number of signatures"), has("invalid recipients number"):
 		return "format"
+	case has("duplicate header parameter"):
+		return "duplicate"
+	case has("both recipients and header or encrypted_key are set"):
+		return "format"
+	case has("aad is not allowed in compact"):
+		return "compact-aad"
 	case has("unprotected header is not allowed in compact"):
 		return "compact-unprotected"
 	case has("recipient header is not allowed in compact"):
